@@ -545,21 +545,32 @@ def safe_before_close(shared, case):
     seen = False
     events = []
     for tok in case["events"]:
-        if tok[0] in "ru":
-            seen = True
-        if tok[0] == "a" and not seen:
+        if tok == "u" or (tok[0] == "r" and case["listener"] != "d"):
+            seen = True          # (a report does not close the device when the listener was collected)
+        if tok[0] == "a":
             row = table[int(tok[1:])]
-            if row["iface"] not in allowed_ifaces or row["name"] in ("connect",):
+            if row["iface"] == "PushUpdater" and row["name"] in ("start", "stop"):
+                tok = "s" if row["name"] == "start" else "t"     # these two have an effect the model tracks
+            elif not seen and (row["iface"] not in allowed_ifaces or row["name"] in ("connect",)):
                 tok = "a%d" % shared["index"][("RemoteControl", "play")]
         events.append(tok)
     return dict(case, events=events)
 
 
-def evaluate(ctx, shared, cases, judge=True):
+def evaluate(ctx, shared, cases, judge=True, chunk=40000):
+    """chunked so that a thorough run never holds more than `chunk` cases in memory"""
+    it = iter(cases)
+    while True:
+        part = list(itertools.islice(it, chunk))
+        if not part:
+            return
+        _evaluate(ctx, shared, part, judge)
+
+
+def _evaluate(ctx, shared, cases, judge=True):
     import threading
     import warnings
 
-    cases = list(cases)
     box = {}
 
     def ask():
